@@ -54,6 +54,7 @@ type Scenario struct {
 	twinSpecs         []map[string]string // further own instances of the same DAG, started with these variable values
 	core              bool                // within the scope of the EngineCore model (journal carries the marker event 38)
 	staleEv           bool                // retry command executed while the completion event of the failed run is still queued behind a busy parser worker
+	lateExit          bool                // executor workers held at the end of workerDo across a retry of their task
 	cmdCrash          bool                // the worker dies after a retry command re-armed its target and before the command is cleared; restart
 	window            bool                // retry command executed between the failed run's last status write and its de-registration
 	dupPush           bool                // retry command processed while a pushed task has not yet stored 'running' and pushes queue up behind a busy worker
@@ -433,6 +434,21 @@ func genScenario(rng *Rng, kind string) *Scenario {
 		s.faultNth = 1 + rng.Intn(2)
 		s.faultMatch = "UpdateTaskIns"
 		s.faultMode = "fail"
+	case "lateexit":
+		// two independent tasks fail on their first attempt; the executor workers that ran them are held in the
+		// TaskCompleted notification at the very end of workerDo while t1 is retried and its new attempt is parked
+		// at the start of its before-hook (registered, 'running' not yet stored); the held workers are then let go
+		// and t2 is retried: the re-initialisation pushes t1 a second time
+		s.tasks = s.tasks[:0]
+		s.tasks = append(s.tasks, taskSpec{id: "t1", action: "AF"}, taskSpec{id: "t2", action: "A"})
+		if rng.Chance(1, 2) {
+			s.tasks = append(s.tasks, taskSpec{id: "t3", action: "A", deps: []string{"t1", "t2"}})
+		}
+		s.scripts = map[string][]phaseScript{"t1/run": {{outcome: 1}, {}, {}}, "t2/run": {{outcome: 1}, {}, {}}}
+		s.execWorkers = 3 + rng.Intn(2)
+		s.parserWorkers = 1
+		s.retries, s.continues = 0, 0
+		s.lateExit = true
 	case "staleev", "window", "cmdcrash":
 		// two own instances of a one-or-two-task DAG, one parser worker; the first task fails on its first attempt.
 		// staleev: the parser worker is held on the verdict patch of one instance while the other instance's failed
@@ -801,6 +817,9 @@ func runScenario(w *World, rng *Rng, s *Scenario, maxSteps int) *runResult {
 		}
 		if s.staleEv || s.window {
 			dirPhase = e.directedRetryRace(s, dirPhase, kp)
+		}
+		if s.lateExit {
+			dirPhase = e.directedLateExit(dirPhase, kp)
 		}
 		if s.cmdCrash && dirPhase == 0 && !e.anyIns(hasCmd) && len(e.aliveTaskIns()) == 0 && len(e.liveGates()) == 0 {
 			if f := e.tasksWithStatus("failed"); len(f) > 0 {
@@ -1310,6 +1329,81 @@ func (e *Engine) directedRetryRace(s *Scenario, phase int, kp interface{ VerifHe
 			}
 		}
 		return 2
+	}
+	return phase
+}
+
+// directedLateExit drives the schedule of kind lateexit; it returns the next phase.
+func (e *Engine) directedLateExit(phase int, kp interface{ VerifHeartBeat() error }) int {
+	retry := func(ids []string) {
+		must(kp.VerifHeartBeat())
+		e.spawn(6, "retry-lateexit", func() string {
+			if err := mod.GetCommander().RetryTask(ids); err != nil {
+				return "err"
+			}
+			return "ok"
+		})
+		e.settle()
+		e.drive(6)
+		if e.anyIns(hasCmd) {
+			par := e.par
+			e.spawn(2, "watchCmd", func() string {
+				if err := par.VerifWatchCmd(); err != nil {
+					return "err"
+				}
+				return "ok"
+			})
+			e.settle()
+			e.drive(2)
+		}
+	}
+	byTask := func(taskID, status string) string {
+		for _, d := range e.dump("task_instance") {
+			if docStr(d, "taskId") == taskID && docStr(d, "status") == status {
+				return docStr(d, "_id")
+			}
+		}
+		return ""
+	}
+	switch phase {
+	case 0:
+		e.hold = func(g *gate) bool { return g.kind == "event" }
+		t1, t2 := byTask("t1", "failed"), byTask("t2", "failed")
+		if t1 != "" && t2 != "" && len(e.aliveTaskIns()) == 0 {
+			busy := false
+			for _, g := range e.liveGates() {
+				if g.kind != "event" {
+					busy = true
+				}
+			}
+			if !busy {
+				e.dirTarget = t1
+				retry([]string{t1})
+				return 1
+			}
+		}
+		return 0
+	case 1:
+		// the new attempt of t1 went through its retry hook, was pushed again as 'init' and is parked at the start
+		// of its before-hook; keep it there, let the held workers return, then retry t2
+		e.hold = func(g *gate) bool { return g.kind == "event" || g.desc == "act:t1:before" }
+		if byTask("t1", "init") == e.dirTarget {
+			for _, g := range e.liveGates() {
+				if g.desc == "act:t1:before" {
+					for _, x := range e.liveGates() {
+						if x.kind == "event" {
+							e.release(x)
+						}
+					}
+					if t2 := byTask("t2", "failed"); t2 != "" {
+						retry([]string{t2})
+					}
+					e.hold = nil
+					return 2
+				}
+			}
+		}
+		return 1
 	}
 	return phase
 }
